@@ -2,6 +2,7 @@ package main
 
 import (
 	"bytes"
+	"crypto/sha256"
 	"encoding/binary"
 	"encoding/json"
 	"fmt"
@@ -502,19 +503,30 @@ type c16Shard struct {
 
 type item struct {
 	base string
-	tree any
 	muts []mutation
 }
 
 // explore runs a BFS of the given depth from root; every new state is judged.
-func explore(r *ev.Run, sd *c16Shard, seen map[string]bool, base string, root any, depth int, samples *ev.Samples, hashes *[]uint64, restricted bool) int {
-	level := []item{{base, root, nil}}
-	seen[canon(root)] = true
+// Memory: the visited set keeps a 128-bit digest per canonical document and the frontier keeps only the
+// mutation path of a state; the tree is rebuilt from the root when the state is expanded.
+func explore(r *ev.Run, sd *c16Shard, seen map[[16]byte]struct{}, base string, root any, depth int, samples *ev.Samples, hashes *[]uint64, restricted bool) int {
+	digest := func(key string) [16]byte {
+		s := sha256.Sum256([]byte(key))
+		var d [16]byte
+		copy(d[:], s[:16])
+		return d
+	}
+	level := []item{{base, nil}}
+	seen[digest(canon(root))] = struct{}{}
 	completed := 0
 	for d := 1; d <= depth; d++ {
 		var next []item
 		for _, it := range level {
-			for mi, m := range mutationsOfA(it.tree, restricted) {
+			tree := root
+			for _, m := range it.muts {
+				tree = apply(tree, m)
+			}
+			for mi, m := range mutationsOfA(tree, restricted) {
 				// the search tree is sharded over worker processes by its level-1 subtrees
 				if d == 1 && r.ShardN > 0 && mi%r.ShardN != r.ShardI {
 					continue
@@ -524,12 +536,13 @@ func explore(r *ev.Run, sd *c16Shard, seen map[string]bool, base string, root an
 					return completed
 				}
 				sd.Trans++
-				t2 := apply(it.tree, m)
+				t2 := apply(tree, m)
 				key := canon(t2)
-				if seen[key] {
+				dg := digest(key)
+				if _, dup := seen[dg]; dup {
 					continue
 				}
-				seen[key] = true
+				seen[dg] = struct{}{}
 				sd.States++
 				h := fnv.New64a()
 				h.Write([]byte(key))
@@ -548,7 +561,7 @@ func explore(r *ev.Run, sd *c16Shard, seen map[string]bool, base string, root an
 					samples.Add(map[string]any{"base": it.base, "mutations": muts, "accepted": acc})
 				}
 				if d < depth {
-					next = append(next, item{it.base, t2, muts})
+					next = append(next, item{it.base, muts})
 				}
 			}
 		}
@@ -612,7 +625,7 @@ func runC16() {
 				}
 				sd.Accepted++
 			}
-			done := explore(r, &sd, map[string]bool{}, name, root, p.Depth, samples, &hashes, p.Restricted)
+			done := explore(r, &sd, map[[16]byte]struct{}{}, name, root, p.Depth, samples, &hashes, p.Restricted)
 			sd.Depth[fmt.Sprintf("%s/reduce=%d/depth=%d/restricted=%v", p.Doc, p.Reduce, p.Depth, p.Restricted)] = done
 		}
 		sd.Samples = samples.L
